@@ -106,7 +106,8 @@ def main():
     groups = [("lazy-DFA-forward", lambda r: r.startswith("lazy.DFA."),
                "lazy.DFA forward entry points driven directly differ from the reference: the NFA fallback of an ANCHORED search is unanchored "
                "(SearchAtAnchored with a one-state cache: `a` on \"\\x00\\x00a\" returns 3); at==len(h) uses matchesEmpty without look-behind context "
-               "(`^$` at 1 on \"\\x00\"); SearchFirstAt stops at the earliest end; look-around / multi-byte dot patterns"),
+               "(`^$` at 1 on \"\\x00\"); SearchFirstAt (earliest-match mode, compared with the EARLIEST end) returns the leftmost-first end "
+               "when it falls back to the NFA under a small cache; look-around / multi-byte dot patterns"),
               ("lazy-DFA-reverse", lambda r: r.startswith("lazy.DFA(reverse)"),
                "reverse lazy.DFA SearchReverse/IsMatchReverse differ from the reference start (empty spans, look-around)"),
               ("PikeVM-captures", lambda r: r.startswith("PikeVM."),
